@@ -6,7 +6,10 @@
      weed/operation/upload_content.go              UploadData -> doUploadData -> upload_content
      weed/util/compression.go                      IsCompressableFileType
      weed/storage/volume_write.go / volume_read.go / needle_read_write.go  (what a stored needle reads back as)
-   Executable definitions only; proofs are in proof/ReplWriteProofs.v.
+   Executable definitions only; proofs are in proof/ReplWriteProofs.v (the replication
+   request) and proof/ReplWriteHistProofs.v (the state machine: per server and file id a
+   slot, Volume.doWriteRequest with isFileUnchanged and the cookie check, the
+   DeleteHandler, ReplicatedWrite / ReplicatedDelete with per-step replica faults).
 
    Pipeline:  client request --create_needle--> primary needle --stored/view--> what the primary serves
               primary needle --replicate--> replica request --create_needle--> replica needle --view--> ...
@@ -261,48 +264,165 @@ Definition view_of (n : needle) : view :=
        so_dec_ok := if n_compressed n then b_gz (n_body n) else true;
        so_len := b_len (n_body n); so_crc := b_crc (n_body n) |}.
 
-(* ---------- one upload (and an optional delete) against a replicated volume ---------- *)
-Record upload := {
-  u_req : request;
-  u_oracles : oracles;
-  u_nrepl : N;      (* locations other than the primary the master lists *)
-  u_fault : N;      (* 0 none; 1 one replica answers 500; 2 one replica is down;
-                       3 the listed replicas are volume servers that do not hold the volume *)
-  u_delete : bool
-}.
+(* ---------- one volume server's copy of the volume ---------- *)
 
-Definition primary_needle (u : upload) : needle := create_needle (u_oracles u) (u_req u).
-Definition replica_needle (u : upload) : needle :=
-  create_needle (u_oracles u) (replicate (u_oracles u) (primary_needle u)).
+(* what the needle map and the .dat file hold for one file id: nothing; a record
+   (cookie, needle as appended - a needle with an empty payload is the Size = 0 record);
+   a tombstone (CompactSection.Delete negates the size and keeps the offset, so the
+   cookie of the deleted record is still what doWriteRequest compares against) *)
+Inductive slot := Absent | Live (ck : N) (n : needle) | Dead (ck : N).
 
-(* how many listed replicas are real volume servers holding the volume / reachable at all *)
-Definition healthy_replicas (u : upload) : N :=
-  match u_fault u with 1 | 2 => u_nrepl u - 1 | _ => u_nrepl u end.
+Definition store := N -> slot.          (* needle id -> slot *)
+Definition empty_store : store := fun _ => Absent.
+Definition upd (s : store) (k : N) (v : slot) : store := fun k' => if k' =? k then v else s k'.
 
-(* ReplicatedWrite: local write, then every other location; any error => 500.  A
-   location that receives type=replicate for a volume it does not hold answers with an
-   error (the repaired ReplicatedWrite; it used to skip the write and answer 201). *)
-Definition upload_status (u : upload) : N :=
-  match u_fault u with 1 | 2 | 3 => 500 | _ => 201 end.
+(* bytes.Equal(oldNeedle.Data, n.Data) on symbolic bodies (gzip is deterministic) *)
+Definition body_eqb (a b : body) : bool :=
+  (b_len a =? b_len b) && (b_crc a =? b_crc b) && Bool.eqb (b_gz a) (b_gz b).
 
-Definition replica_view (u : upload) : view :=
-  if u_fault u =? 3 then blank 3 false else view_of (replica_needle u).
+(* Volume.doWriteRequest on a volume without TTL: 0 appended, 1 isFileUnchanged (nothing
+   written, whatever the new needle's name / mime / pairs / last-modified / flags are),
+   2 "mismatching cookie".  isFileUnchanged needs nv.Size.IsValid(): not a tombstone, not
+   the Size = 0 record. *)
+Definition write_local (s : slot) (ck : N) (n : needle) : slot * N :=
+  match s with
+  | Absent => (Live ck n, 0)
+  | Dead ck0 => if ck0 =? ck then (Live ck n, 0) else (s, 2)
+  | Live ck0 n0 =>
+      if negb (body_empty (n_body n0)) && (ck0 =? ck) && body_eqb (n_body n0) (n_body n) then (s, 1)
+      else if ck0 =? ck then (Live ck n, 0) else (s, 2)
+  end.
 
-(* primary first, then the real servers among the other locations *)
-Definition views_after_upload (u : upload) : list view :=
-  view_of (primary_needle u) :: repeat (replica_view u) (N.to_nat (healthy_replicas u)).
+(* DeleteHandler on one server: ReadVolumeNeedle (404 when absent or deleted; a Size = 0
+   record reads as nothing, so the cookie comparison passes), cookie comparison (400),
+   doDeleteRequest (a Size = 0 record is not IsValid: nothing happens), 202 *)
+Definition delete_local (s : slot) (ck : N) : slot * N :=
+  match s with
+  | Absent => (s, 404)
+  | Dead _ => (s, 404)
+  | Live ck0 n0 =>
+      if body_empty (n_body n0) then (s, 202)
+      else if ck0 =? ck then (Dead ck0, 202) else (s, 400)
+  end.
 
-(* DeleteHandler + ReplicatedDelete: a Size = 0 needle is found but cannot be deleted; a
-   location that does not hold the volume answers 404, which util.Delete accepts *)
-Definition delete_status (u : upload) : N :=
-  match u_fault u with 1 | 2 => 500 | _ => 202 end.
+(* ---------- the replicated volume: primary + the other listed locations ---------- *)
 
-Definition deleted_view (n : needle) : view :=
-  if body_empty (n_body n) then blank 0 true else blank 2 false.
+(* a listed location is a volume server that holds the volume (Some) or does not (None) *)
+(* [sy_nolookup]: getWritableRemoteReplications fails on the primary - operation.Lookup
+   returns an error, or the master lists fewer locations than the volume's copy count -
+   so every write / delete is refused before anything is written *)
+Record sys := { sy_p : store; sy_r : list (option store); sy_nolookup : bool }.
 
-Definition views_after_delete (u : upload) : list view :=
-  deleted_view (primary_needle u) ::
-  repeat (if u_fault u =? 3 then blank 3 false else deleted_view (replica_needle u)) (N.to_nat (healthy_replicas u)).
+Definition init (nrepl : N) (lost nolookup : bool) : sys :=
+  {| sy_p := empty_store;
+     sy_r := repeat (if lost then None else Some empty_store) (N.to_nat nrepl);
+     sy_nolookup := nolookup |}.
+
+(* what a replica does to the requests of ONE step: 0 serves them; 1 answers 500 to every
+   attempt; 2 drops every connection; 3 serves every attempt and then answers 500 (the
+   answer is lost); 4 / 5 answers 500 to the first / the first two attempts, then serves *)
+Definition failed_attempts (f : N) : N := match f with 0 => 0 | 4 => 1 | 5 => 2 | _ => 3 end.
+Definition upload_attempts : N := 3.    (* operation.retriedUploadData: for i := 0; i < 3; i++ *)
+Definition delete_attempts : N := 1.    (* util.Delete: one request *)
+Definition blocks_upload (f : N) : bool := upload_attempts <=? failed_attempts f.
+Definition blocks_delete (f : N) : bool := delete_attempts <=? failed_attempts f.
+Definition applies (f : N) : bool := f =? 3.
+
+(* the replica's PostHandler for type=replicate: (new copy, answered without error).  A
+   server that does not hold the volume answers with an error (the repaired
+   ReplicatedWrite; it used to skip the write and answer 201).  Serving the same request
+   more than once changes nothing more (the second time it is unchanged). *)
+Definition replica_serve_upload (r : option store) (k ck : N) (rn : needle) : option store * bool :=
+  match r with
+  | None => (None, false)
+  | Some s => let '(sl, res) := write_local (s k) ck rn in (Some (upd s k sl), negb (res =? 2))
+  end.
+Definition replica_upload (f : N) (r : option store) (k ck : N) (rn : needle) : option store * bool :=
+  if blocks_upload f then ((if applies f then fst (replica_serve_upload r k ck rn) else r), false)
+  else replica_serve_upload r k ck rn.
+
+(* distributedOperation: every location is contacted; any error fails the operation *)
+Fixpoint replicas_upload (fs : list N) (rs : list (option store)) (k ck : N) (rn : needle)
+  : list (option store) * bool :=
+  match rs with
+  | [] => ([], true)
+  | r :: rs' =>
+      let '(r', ok) := replica_upload (hd 0 fs) r k ck rn in
+      let '(rs'', ok') := replicas_upload (tl fs) rs' k ck rn in
+      (r' :: rs'', ok && ok')
+  end.
+
+(* PostHandler + ReplicatedWrite on the primary: local write first (an error ends the
+   request, nothing is sent); then the request built from the REQUEST's needle - also
+   when the local write was "unchanged" - goes to every other location; 204 when the
+   local write was unchanged and nobody failed, 201, or 500 *)
+Definition upload_step (sy : sys) (o : oracles) (q : request) (k ck : N) (fs : list N) : sys * N :=
+  if sy_nolookup sy then (sy, 500)
+  else
+  let n := create_needle o q in
+  let '(sl, res) := write_local (sy_p sy k) ck n in
+  if res =? 2 then (sy, 500)
+  else
+    let rn := create_needle o (replicate o n) in
+    let '(rs, ok) := replicas_upload fs (sy_r sy) k ck rn in
+    ({| sy_p := upd (sy_p sy) k sl; sy_r := rs; sy_nolookup := false |},
+     if ok then (if res =? 1 then 204 else 201) else 500).
+
+(* the replica's DeleteHandler for type=replicate; a server without the volume answers
+   404, which util.Delete accepts like 202 *)
+Definition replica_serve_delete (r : option store) (k ck : N) : option store * bool :=
+  match r with
+  | None => (None, true)
+  | Some s => let '(sl, st) := delete_local (s k) ck in (Some (upd s k sl), (st =? 202) || (st =? 404))
+  end.
+Definition replica_delete (f : N) (r : option store) (k ck : N) : option store * bool :=
+  if blocks_delete f then ((if applies f then fst (replica_serve_delete r k ck) else r), false)
+  else replica_serve_delete r k ck.
+
+Fixpoint replicas_delete (fs : list N) (rs : list (option store)) (k ck : N)
+  : list (option store) * bool :=
+  match rs with
+  | [] => ([], true)
+  | r :: rs' =>
+      let '(r', ok) := replica_delete (hd 0 fs) r k ck in
+      let '(rs'', ok') := replicas_delete (tl fs) rs' k ck in
+      (r' :: rs'', ok && ok')
+  end.
+
+(* DeleteHandler + ReplicatedDelete on the primary: 404 / 400 end the request before
+   anything is sent; ReplicatedDelete looks the locations up before the local delete *)
+Definition delete_step (sy : sys) (k ck : N) (fs : list N) : sys * N :=
+  let '(sl, st) := delete_local (sy_p sy k) ck in
+  if negb (st =? 202) then (sy, st)
+  else if sy_nolookup sy then (sy, 500)
+  else
+    let '(rs, ok) := replicas_delete fs (sy_r sy) k ck in
+    ({| sy_p := upd (sy_p sy) k sl; sy_r := rs; sy_nolookup := false |}, if ok then 202 else 500).
+
+(* ---------- histories ---------- *)
+Inductive op := Up (o : oracles) (q : request) | Del.
+Record step := { s_key : N; s_ck : N; s_op : op; s_faults : list N (* one per listed replica *) }.
+
+Definition do_step (sy : sys) (s : step) : sys * N :=
+  match s_op s with
+  | Up o q => upload_step sy o q (s_key s) (s_ck s) (s_faults s)
+  | Del => delete_step sy (s_key s) (s_ck s) (s_faults s)
+  end.
+
+(* the states and statuses a history goes through *)
+Fixpoint run (sy : sys) (h : list step) : list (sys * N) :=
+  match h with
+  | [] => []
+  | s :: h' => let r := do_step sy s in r :: run (fst r) h'
+  end.
+
+(* what each server serves for a file id: primary first *)
+Definition slot_view (s : slot) : view :=
+  match s with Absent => blank 1 false | Dead _ => blank 2 false | Live _ n => view_of n end.
+Definition server_view (r : option store) (k : N) : view :=
+  match r with None => blank 3 false | Some s => slot_view (s k) end.
+Definition key_views (sy : sys) (k : N) : list view :=
+  slot_view (sy_p sy k) :: map (fun r => server_view r k) (sy_r sy).
 
 (* ---------- the property ---------- *)
 Definition pairs_eqb (a b : pairs) : bool :=
@@ -339,9 +459,10 @@ Definition delete_consistent (status : N) (vs : list view) : bool :=
    an empty mime is replaced by the sniffed type or by the extension's type *)
 Definition keep256 (s : string) : string := if slen s <? 256 then s else "".
 
-Definition trig_mime (u : upload) : bool :=
-  let o := u_oracles u in
-  let n := primary_needle u in
+Definition trig_mime (o : oracles) (q : request) : bool :=
+  let n := create_needle o q in
+  (* an empty payload reads back without any mime type *)
+  negb (body_empty (n_body n)) &&
   negb (n_cm n) &&
   (String.eqb (n_mime n) octet ||
    (String.eqb (n_mime n) "" &&
@@ -352,10 +473,94 @@ Definition trig_mime (u : upload) : bool :=
     negb (String.eqb (keep256 t) "") && negb (String.eqb t octet)
     && negb (String.eqb t (tbe o (ext_lastindex (parsed_name (replicate o n))))))).
 
-(* 1: empty payload *)
-Definition trig_empty (u : upload) : bool := body_empty (q_body (u_req u)).
+(* 1: empty payload.  Upload steps: the primary stores the Size = 0 record while the
+   replicas are sent a non-empty body (the replication client gzips the empty payload
+   whenever the mime type - sniffed as text/plain when the primary kept none - or the
+   name asks for compression; an empty payload under e.g. image/jpeg, or one labelled
+   gzip, reaches the replicas empty and is consistent).  Delete steps: some server holds
+   the Size = 0 record of an earlier empty upload for this file id. *)
+Definition trig_empty (o : oracles) (q : request) : bool :=
+  let n := create_needle o q in
+  body_empty (n_body n) && negb (body_empty (n_body (create_needle o (replicate o n)))).
 
-Definition trigger (u : upload) : option N :=
-  if trig_empty u then Some 1
-  else if trig_mime u then Some 0
-  else None.
+Definition slot_empty (s : slot) : bool :=
+  match s with Live _ n => body_empty (n_body n) | _ => false end.
+Definition server_slot_empty (r : option store) (k : N) : bool :=
+  match r with Some s => slot_empty (s k) | None => false end.
+Definition trig_empty_slot (sy : sys) (k : N) : bool :=
+  slot_empty (sy_p sy k) || existsb (fun r => server_slot_empty r k) (sy_r sy).
+
+(* 2: a server answers "unchanged" (same cookie, same stored bytes) while the needle it
+   holds for the file id has another outcome than the one it was sent: it keeps the old
+   name / mime / pairs / last-modified / TTL / compression flag (C01's
+   unchanged-drops-metadata), and the other servers - which are always sent the new
+   request - may not *)
+Definition is_unchanged (s : slot) (ck : N) (n : needle) : bool :=
+  match s with
+  | Live ck0 n0 => negb (body_empty (n_body n0)) && (ck0 =? ck) && body_eqb (n_body n0) (n_body n)
+  | _ => false
+  end.
+Definition unchanged_drops (s : slot) (ck : N) (n : needle) : bool :=
+  is_unchanged s ck n && negb (same_outcome (slot_view s) (view_of n)).
+Definition server_unchanged_drops (r : option store) (k ck : N) (n : needle) : bool :=
+  match r with Some s => unchanged_drops (s k) ck n | None => false end.
+(* ... unless EVERY listed server answers "unchanged" and they all hold the same outcome
+   already: then nothing changes anywhere and they still agree (the new metadata is
+   dropped by all of them alike - C01's finding, not a divergence) *)
+Definition server_unchanged_alike (pv : view) (r : option store) (k ck : N) (n : needle) : bool :=
+  match r with Some s => is_unchanged (s k) ck n && same_outcome pv (slot_view (s k)) | None => false end.
+Definition all_unchanged_alike (sy : sys) (k ck : N) (n rn : needle) : bool :=
+  is_unchanged (sy_p sy k) ck n
+  && forallb (fun r => server_unchanged_alike (slot_view (sy_p sy k)) r k ck rn) (sy_r sy).
+Definition trig_unchanged (sy : sys) (o : oracles) (q : request) (k ck : N) : bool :=
+  let n := create_needle o q in
+  let rn := create_needle o (replicate o n) in
+  (unchanged_drops (sy_p sy k) ck n || existsb (fun r => server_unchanged_drops r k ck rn) (sy_r sy))
+  && negb (all_unchanged_alike sy k ck n rn).
+
+(* what still holds inside the triggers: everything but the mime type (trigger 0); the
+   decoded content (triggers 1 and 2, and always) *)
+Definition clear_mime (v : view) : view :=
+  {| so_state := so_state v; so_flags := so_flags v; so_name := so_name v; so_mime := ""; so_pairs := so_pairs v;
+     so_lastmod := so_lastmod v; so_ttl := so_ttl v; so_dec_ok := so_dec_ok v; so_len := so_len v; so_crc := so_crc v |}.
+Definition same_but_mime (a b : view) : bool := same_outcome (clear_mime a) (clear_mime b).
+Definition same_content (a b : view) : bool :=
+  (so_state a =? so_state b) && (so_len a =? so_len b) && ((so_len a =? 0) || (so_crc a =? so_crc b)).
+
+(* the trigger of one step, evaluated on the state it starts from *)
+Definition step_trigger (sy : sys) (s : step) : option N :=
+  match s_op s with
+  | Up o q =>
+      if trig_empty o q then Some 1
+      else if trig_unchanged sy o q (s_key s) (s_ck s) then Some 2
+      else if trig_mime o q then Some 0
+      else None
+  | Del => if trig_empty_slot sy (s_key s) then Some 1 else None
+  end.
+
+(* the property of one step, on the status and on what the servers serve afterwards *)
+Definition step_blocked (s : step) (nrepl : nat) : bool :=
+  existsb (match s_op s with Up _ _ => blocks_upload | Del => blocks_delete end) (firstn nrepl (s_faults s)).
+Definition step_consistent (s : step) (status : N) (vs : list view) : bool :=
+  match s_op s with
+  | Up _ _ => upload_consistent status vs
+  | Del => delete_consistent status vs
+  end.
+(* the part of the property that holds even inside trigger [trig]: after an acknowledged
+   upload every server agrees on everything but the mime type (trigger 0) / on the decoded
+   content (triggers 1, 2); after an acknowledged delete a server still serving the file
+   serves the empty record *)
+Definition empty_record (v : view) : bool := (so_state v =? 0) && (so_len v =? 0).
+Definition step_residual (s : step) (trig : option N) (status : N) (vs : list view) : bool :=
+  negb (success status) ||
+  match s_op s with
+  | Up _ _ =>
+      match vs with
+      | [] => true
+      | p :: rs => match trig with
+                   | Some 0 => forallb (same_but_mime p) rs
+                   | _ => forallb (same_content p) rs
+                   end
+      end
+  | Del => forallb (fun v => is_deleted v || empty_record v) vs
+  end.
